@@ -57,8 +57,13 @@ ASSUMPTIONS = ['floating-point rounding is outside the model (exact reals in the
                'convergence_not_proved: decay of the KKT residual, sub-gradient inclusion with the '
                'dual certificate of pdhg, start-at-solution drift and objective agreement are TESTS on '
                'generated problems (strongly convex quadratic f only; L from the operator zoo incl. '
-               'gradient / weighted; g incl. indicators, KL, Huber, group-L1); cg_exact_after_dim is '
-               'tested only; l != None is modelled and tied but has no Douglas-Rachford theorem']
+               'gradient / weighted; g incl. indicators, KL, Huber, group-L1); l != None is modelled '
+               'and tied but has no Douglas-Rachford theorem',
+               'round 4: landweber_converges_linearly / cg_exact_after_dim / power_method_*_estimate_mono '
+               'are theorems in exact arithmetic about LandweberP.step, CgP.step, PowerP/PowerSelfP.step; '
+               'on the real code (doubles) the contraction factor is checked with relative slack 1e-9 and an '
+               'absolute floor 1e-22 (1 + |x*|^2 + |x0|^2), CG exactness for cond(A) < 1e4 to 1e-6, and '
+               'the estimate sequence with relative slack 1e-10; singular values from numpy.linalg.svd']
 KNOWN_EXPLAINS_DISAGREEMENT = False
 
 Case = c11.Case
@@ -558,6 +563,156 @@ def family_power(ctx, r, exact, n, opaque=False):
                      {'_float': ('est', float(est)) if st == 'ok' else None, '_literal_raise': st != 'ok'})]
     ctx.case(('oracle', 'power', kind, ncalls))
     return []
+
+
+# ---------------------------------------------------------------------------
+# ROUND 4 streams: Landweber contraction rate (C12.landweber_error_contraction /
+# landweber_converges_linearly) and monotone power-method estimates
+# (C12.power_method_estimate_mono / power_method_selfadjoint_estimate_mono)
+
+def family_landweber_rate(ctx, r, exact, n, opaque=False):
+    """oracle (real code, numpy.linalg only): for an INJECTIVE matrix operator (smallest singular
+    value mu > 0), admissible omega and x* the least-squares solution (consistent and inconsistent
+    right-hand sides), EVERY callback iterate satisfies
+        |x_{k+1} - x*|^2 <= (1 - omega (2 - omega c^2) mu^2) |x_k - x*|^2,   c = largest singular value.
+    Model tie: the first iterates of the same call go to the `landweber` op of lean/Drivers/C11.lean
+    (the state machine LandweberP.step of the theorem), compared exactly on the dyadic data."""
+    import odl
+    from odl.solvers import landweber
+    d = r.randint(1, 3)
+    m = r.randint(d, 4)
+    A, sv = None, None
+    for _ in range(30):
+        A = sl.small_int_matrix(r, m, d)
+        sv = np.linalg.svd(A, compute_uv=False)
+        if len(sv) == d and sv[-1] > 0.2:
+            break
+    else:
+        A = 2.0 * np.eye(m, d)
+        sv = np.linalg.svd(A, compute_uv=False)
+    c_, mu = float(sv[0]), float(sv[-1])
+    consistent = r.random() < 0.5
+    b = A.dot(sl.dy_vec(r, d, 16, 8)) if consistent else sl.dy_vec(r, m, 16, 8)
+    x0 = sl.dy_vec(r, d, 16, 8)
+    w0 = 1.0
+    while w0 * c_ ** 2 >= 1.9:
+        w0 /= 2
+    frac = r.choice([1.0, 0.5, 0.75, 0.25])
+    omega = w0 * frac                       # dyadic, omega c^2 < 1.9
+    uclass = 'omega*c^2 in ' + ('(1,2)' if omega * c_ ** 2 > 1 else '(0,1]')
+    nit = r.randint(3, 25)
+    op = odl.MatrixOperator(A)
+    p = dict(solver='landweber_rate', opkind='{}x{}'.format(m, d), x0=x0, omega=omega, fk='-',
+             gk='consistent' if consistent else 'inconsistent', cseed=r.cseed)
+    rec = Recorder()
+    st, _ = guarded(landweber, op, unflat(op.domain, x0), unflat(op.range, b), nit, omega=omega,
+                    callback=rec)
+    log = rec.iterates
+    if st == 'ok':
+        xs = np.linalg.lstsq(A, b, rcond=None)[0]
+        q = 1.0 - omega * (2.0 - omega * c_ ** 2) * mu ** 2
+        e = [float(np.sum((np.asarray(v) - xs) ** 2)) for v in [x0] + log]
+        floor = 1e-22 * (1.0 + float(np.sum(xs ** 2)) + float(np.sum(x0 ** 2)))
+        if len(log) != nit:
+            viol(ctx, 'landweber callback count (rate stream) matrix=' + p['opkind'],
+                 '{} callbacks in {} iterations'.format(len(log), nit), p, n=nit)
+        for k in range(len(e) - 1):
+            if not (np.isfinite(e[k + 1]) and e[k + 1] <= q * e[k] * (1 + 1e-9) + floor):
+                viol(ctx, 'landweber error does not contract with the proved factor matrix={} rhs={} {}'.format(
+                    p['opkind'], p['gk'], uclass),
+                    '|x_{}-x*|^2={} > q |x_{}-x*|^2 = {} * {} (omega={}, sigma_max={}, sigma_min={})'.format(
+                        k + 1, e[k + 1], k, q, e[k], omega, c_, mu), p, n=nit, A=A.tolist(),
+                    b=b.tolist())
+                break
+    else:
+        viol(ctx, 'landweber raises (rate stream) matrix=' + p['opkind'], st, p, n=nit)
+    ctx.hit('oracle/landweber_rate/' + p['gk'])
+    ctx.hit('oracle/landweber_rate/' + uclass)
+    nt = min(nit, 4)
+    line = 'landweber A={} At={} rhs={} omega={} proj=none x0={} n={}'.format(
+        fmat_np(A), fmat_np(A.T), fl(b), fs(omega), fl(x0), nt)
+    ctx.hit('model/c11-tie/landweber_rate')
+    sig = ('model', 'landweber_rate', p['opkind'], p['gk'], uclass, frac)
+    return [Case(desc_of(p, n=nit), sig if st == 'ok' and c11.nontrivial(log, x0) else None, line, st,
+                 log[:nt], {'_c11': True})]
+
+
+def sym_selfadjoint_operator(S):
+    """a symmetric matrix operator whose `adjoint` IS the operator (`op.adjoint is op`): the only
+    way to reach the self-adjoint branch of power_method_opnorm with a non-scalar operator"""
+    import odl
+
+    class SymMatrixOperator(odl.MatrixOperator):
+        @property
+        def adjoint(self):
+            return self
+    return SymMatrixOperator(S)
+
+
+def family_power_mono(ctx, r, exact, n, opaque=False):
+    """the SEQUENCE of estimates power_method_opnorm(op, xstart, maxiter=k), k = 1..N loop bodies:
+    oracle (real code): non-decreasing in k and <= the true norm; model tie: every element of the
+    sequence against PowerP.run / PowerSelfP.run with the same number of loop bodies."""
+    from odl.operator.oputils import power_method_opnorm
+    self_adj = r.random() < 0.5
+    if self_adj:
+        d = r.randint(1, 4)
+        B = sl.small_int_matrix(r, d, d)
+        S = B + B.T
+        if not np.any(S):
+            S = np.eye(d)
+        kind, op = 'symmetric(adjoint is op)', sym_selfadjoint_operator(S)
+    else:
+        kind, op = sl.operator_zoo(r, r.choice(['matrix', 'matrix', 'pderiv', 'gradient', 'wmatrix']))
+    M = np.array([[float(v) for v in row] for row in sl.exact_matrix(op)])
+    Mt = M if self_adj else np.array([[float(v) for v in row] for row in sl.exact_matrix(op.adjoint)])
+    x0 = sl.dy_vec(r, size_of(op.domain), 16, 8)
+    if not np.any(x0):
+        x0[0] = 1.0
+    N = r.randint(3, 10)
+    p = dict(solver='power_mono', opkind=kind, x0=x0, fk='-', gk='-', cseed=r.cseed)
+    true = true_opnorm(op, M)
+    ests, sts = [], []
+    for k in range(1, N + 1):
+        st, est = guarded(power_method_opnorm, op, xstart=unflat(op.domain, x0),
+                          maxiter=k if self_adj else 2 * k)
+        sts.append(st)
+        ests.append(float(est) if st == 'ok' else None)
+        if st != 'ok':
+            break
+    ok = [e for e in ests if e is not None]
+    for k in range(len(ok) - 1):
+        if not ok[k + 1] >= ok[k] * (1 - 1e-10) - 1e-300:
+            viol(ctx, 'power_method_opnorm estimate decreases with more iterations opkind=' + kind,
+                 'estimate after {} loop bodies {} < after {} loop bodies {}'.format(
+                     k + 2, ok[k + 1], k + 1, ok[k]), p, M=M.tolist(), n=N)
+            break
+    if ok and not max(ok) <= true * (1 + 1e-10) + 1e-300:
+        viol(ctx, 'power_method_opnorm exceeds the operator norm (sequence) opkind=' + kind,
+             'estimates {} > norm {}'.format(ok, true), p, M=M.tolist(), n=N)
+    raised = sts[-1] != 'ok'
+    if raised and 'reached' not in str(sts[-1]):
+        viol(ctx, 'power_method_opnorm raises (sequence) opkind=' + kind, sts[-1], p, M=M.tolist(), n=N)
+    ctx.hit('model/power_mono/' + ('self' if self_adj else 'normal'))
+    if raised:
+        ctx.hit('model/power_mono/raise')
+    if len(ok) >= 2 and ok[-1] > ok[0] * (1 + 1e-9):
+        ctx.hit('oracle/power_mono/strictly-increasing')
+    if kind not in ('matrix', 'symmetric(adjoint is op)'):
+        ctx.case(('oracle', 'power_mono', kind, N))
+        return []
+    cases = []
+    for k, (st, est) in enumerate(zip(sts, ests), start=1):
+        if self_adj:
+            line = 'powerself A={} x0={} ncalls={} rtol=1/100000 atol=1/100000000'.format(
+                fmat_np(M), fl(x0), k)
+        else:
+            line = 'power A={} At={} x0={} ncalls={} rtol=1/100000 atol=1/100000000'.format(
+                fmat_np(M), fmat_np(Mt), fl(x0), k)
+        cases.append(Case(desc_of(p, maxiter=k if self_adj else 2 * k, n=N),
+                          ('model', 'power_mono', kind, k), line, 'ok', None,
+                          {'_float': ('est', est) if st == 'ok' else None, '_literal_raise': st != 'ok'}))
+    return cases
 
 
 # ---------------------------------------------------------------------------
@@ -1626,6 +1781,7 @@ FAMILIES = {
     'ref_kaczmarz': family_ref_kaczmarz, 'ref_osmlem': family_ref_osmlem,
     'optimality_multi': family_optimality_multi,
     'ref_pdhg': family_ref_pdhg, 'ref_fista': family_ref_fista, 'fista_rate': family_fista_rate,
+    'landweber_rate': family_landweber_rate, 'power_mono': family_power_mono,
 }
 EXPECTED_BRANCHES = [
     'model/cg', 'model/cg/early-return', 'model/cgn', 'model/cgn/nonlinear-op',
@@ -1643,9 +1799,14 @@ EXPECTED_BRANCHES = [
     'history/landweber-default', 'history/pdhg_stepsize', 'history/douglas_rachford_pd_stepsize',
     'history/optimality-default-steps', 'start/equal-distinct-space/dr',
     'start/equal-distinct-space/fbpd',
+    'oracle/landweber_rate/consistent', 'oracle/landweber_rate/inconsistent',
+    'oracle/landweber_rate/omega*c^2 in (1,2)', 'oracle/landweber_rate/omega*c^2 in (0,1]',
+    'model/c11-tie/landweber_rate', 'model/power_mono/self', 'model/power_mono/normal',
+    'oracle/power_mono/strictly-increasing',
 ]
 SLOW = {'optimality': 0.2, 'fixed_point': 0.3, 'optimality_multi': 0.15, 'proxgrad_descent': 0.15, 'f12': 0.05, 'fista_rate': 0.05}
 C11_TIE = ('landweber', 'kaczmarz', 'pdhg', 'admm', 'proxgrad')
+ROUND4_FAMILIES = ('landweber_rate', 'power_mono')
 
 
 def plan(ctx, deep=False):
@@ -1654,10 +1815,18 @@ def plan(ctx, deep=False):
     per = 40 if quick else 110
     out = []
     for fam in sorted(FAMILIES):
+        if fam in ROUND4_FAMILIES:
+            continue
         k = max(2, int(per * SLOW.get(fam, 1.0)))
         for i in range(k):
             exact = i % 3 != 2
             out.append((fam, rng.getrandbits(48), exact, rng.randint(1, 5 if exact else 10)))
+    # the round-4 streams draw from a DERIVED generator, so that the case seeds of the older
+    # families (and of the C11 tie, which continues on ctx.rng) are what they were before
+    rng4 = random.Random('C12-round4:{}:{}'.format(ctx.seed, 'deep' if deep else ctx.tier))
+    for fam in ROUND4_FAMILIES:
+        for i in range(per):
+            out.append((fam, rng4.getrandbits(48), i % 3 != 2, 1))
     return out
 
 
@@ -1731,11 +1900,14 @@ def run(ctx, deep=False):
         got = run_one(ctx, fam, cseed, exact, n)
         c11.add_envelopes(got, lambda: run_one(core.Ctx(ctx.pid, ctx.tier, ctx.seed), fam, cseed, exact, n))
         cases.extend(got)
+    # cases of C12 families whose state machine is executed by lean/Drivers/C11.lean (landweber_rate)
+    via_c11 = [c for c in cases if c.extra.get('_c11')]
+    cases = [c for c in cases if not c.extra.get('_c11')]
     outs = core.run_driver('C12', [c.line for c in cases])
     for c, ans in zip(cases, outs):
         compare(ctx, c, ans)
     # the solvers shared with C11 (same state machines, lean/Drivers/C11.lean)
-    tie = []
+    tie = list(via_c11)
     for fam in C11_TIE:
         for i in range(12 if ctx.quick and not deep else 40):
             exact = i % 3 != 2
